@@ -63,6 +63,7 @@ pub proof fn lemma_next_storage(u: Seq<u8>, g: int, n: int, det_sto: bool, index
     }),
     decreases g,
 {
+    reveal(spec_parse_storage); reveal(spec_parse_serial);
     if g == 0 {
         assert(!inner_sh(u, n)) by {
             assert forall|i: int| 5 <= i < n implies !sh_pat(u, i) by {}
@@ -101,6 +102,7 @@ pub proof fn lemma_next_serial(u: Seq<u8>, g: int, n: int, det_ser: bool, index:
     }),
     decreases g,
 {
+    reveal(spec_parse_storage); reveal(spec_parse_serial);
     if g == 0 {
         assert(!inner_ser(u, n)) by {
             assert forall|i: int| 5 <= i < n implies !ser_pat(u, i) by {}
@@ -136,6 +138,7 @@ pub proof fn lemma_next_tail(u: Seq<u8>, det_sto: bool, det_ser: bool, index: in
     }),
     decreases u.len(),
 {
+    reveal(spec_parse_storage); reveal(spec_parse_serial);
     assert(!sh_pat(u, 0) && !ser_pat(u, 0));
     if u.len() > 0 {
         let v = u.skip(1);
